@@ -143,6 +143,20 @@ Proof.
   try reflexivity; destruct r; reflexivity.
 Qed.
 
+(* ---------------------------------------------------------------- what the caller owns *)
+(* no operation -- successful or refused, reader or writer -- changes the state of any stream of the caller *)
+Lemma step_keeps_sstate w x : w_sstate (fst (step w x)) = w_sstate w.
+Proof.
+  destruct x as [c slot o v md | k d]; [|reflexivity].
+  unfold step. destruct (c_verb c); destruct (spec c) as [e|r|m s ok| |n]; try reflexivity;
+  try (destruct r; reflexivity); destruct s; try reflexivity; destruct ok; reflexivity.
+Qed.
+
+(* a REFUSED call (unsupported format / parser / no format: spec = ARaise) leaves the whole world as it was *)
+Lemma refused_leaves_world w c slot o v md e :
+  spec c = ARaise e -> step w (OCall c slot o v md) = (w, (ARaise e, None)).
+Proof. intros H. unfold step. rewrite H. destruct (c_verb c); reflexivity. Qed.
+
 (* ---------------------------------------------------------------- histories *)
 Lemma final_app w p q : final w (p ++ q) = final (final w p) q.
 Proof. revert w; induction p as [|x p IH]; intros w; simpl; [reflexivity | apply IH]. Qed.
@@ -217,6 +231,40 @@ Proof.
   destruct md'; reflexivity.
 Qed.
 
+(* in every history the streams of the caller keep their state: one that was open behind its text is still
+   open behind its text after any number of calls, refused ones included *)
+Lemma final_keeps_sstate w p : w_sstate (final w p) = w_sstate w.
+Proof.
+  revert w; induction p as [|x p IH]; intros w; simpl; [reflexivity|].
+  rewrite IH. apply step_keeps_sstate.
+Qed.
+
+Lemma stream_state_preserved w p s : get_sstate (final w p) s = get_sstate w s.
+Proof. unfold get_sstate. rewrite final_keeps_sstate. reflexivity. Qed.
+
+Lemma streams_stay_ready w p : streams_ready w = true -> streams_ready (final w p) = true.
+Proof. unfold streams_ready. rewrite final_keeps_sstate. exact (fun H => H). Qed.
+
+(* every observation of a history reports the stream states of the initial world, and no handle left open *)
+Lemma run_obs_owned w p ob : In ob (run w p) -> ob_sstate ob = map snd (w_sstate w) /\ ob_left_open ob = 0.
+Proof.
+  revert w; induction p as [|x p IH]; intros w H; simpl in H; [contradiction|].
+  destruct H as [H|H].
+  - subst ob; simpl. rewrite step_keeps_sstate. split; reflexivity.
+  - specialize (IH _ H). rewrite step_keeps_sstate in IH. exact IH.
+Qed.
+
+(* a refused dump into a stream, after any history: the stream holds what it held, in the state it had *)
+Lemma refused_dump_keeps_stream w pre c slot o v md e s :
+  spec c = ARaise e ->
+  get_stream (final w (pre ++ [OCall c slot o v md])) s = get_stream (final w pre) s /\
+  get_sstate (final w (pre ++ [OCall c slot o v md])) s = get_sstate w s /\
+  snd (step (final w pre) (OCall c slot o v md)) = (ARaise e, None).
+Proof.
+  intros H. rewrite final_app, final_one. rewrite (refused_leaves_world _ _ _ _ _ _ e H). cbn [fst snd].
+  repeat split. apply stream_state_preserved.
+Qed.
+
 (* soundness of the correspondence check *)
 Lemma tok_eqb_eq a b : tok_eqb a b = true -> a = b.
 Proof.
@@ -244,12 +292,17 @@ Proof.
   apply (list_eqb_eq tok_eqb tok_eqb_eq) in Hs. subst. reflexivity.
 Qed.
 
+Lemma sstate_eqb_eq a b : sstate_eqb a b = true -> a = b.
+Proof. destruct a, b; simpl; intros H; try discriminate; reflexivity. Qed.
+
 Lemma obs_eqb_eq a b : obs_eqb a b = true -> a = b.
 Proof.
-  destruct a as [r f s], b as [r' f' s']; unfold obs_eqb; simpl; intros H.
+  destruct a as [r f s q n], b as [r' f' s' q' n']; unfold obs_eqb; simpl; intros H.
+  apply andb_prop in H; destruct H as [H Hn]. apply andb_prop in H; destruct H as [H Hq].
   apply andb_prop in H; destruct H as [H Hs]. apply andb_prop in H; destruct H as [Hr Hf].
-  apply result_eqb_eq in Hr.
-  apply (list_eqb_eq _ (list_eqb_eq tok_eqb tok_eqb_eq)) in Hf, Hs. subst. reflexivity.
+  apply result_eqb_eq in Hr. apply Nat.eqb_eq in Hn.
+  apply (list_eqb_eq _ (list_eqb_eq tok_eqb tok_eqb_eq)) in Hf, Hs.
+  apply (list_eqb_eq _ sstate_eqb_eq) in Hq. subst. reflexivity.
 Qed.
 
 (* a recorded history accepted by the check IS the run of the model *)
